@@ -340,6 +340,10 @@ func (w *gworld) exec(st GStep) chain.Rec {
 			r = c.Run(w.token, sg, "pay", w.acct(st.V), w.acct(st.U), amt, data)
 		case "DIRECT":
 			r = c.Run(w.acct(st.V), sg, "onNEP17Payment", w.acct(st.U), amt, data)
+		case "FOREIGNMINT": // a foreign token announcing minted units: Null sender (ninth seeded batch, C19f)
+			r = c.Run(w.token, sg, "pay", w.acct(st.V), nil, amt, data)
+		case "DIRECTMINT":
+			r = c.Run(w.acct(st.V), sg, "onNEP17Payment", nil, amt, data)
 		default:
 			w.t.Fatalf("unknown token %q", st.K)
 		}
@@ -724,7 +728,7 @@ func randGasScenario(r *rand.Rand) *GScenario {
 			sc.Steps = append(sc.Steps, GStep{Act: "pay", S: []string{u}, U: u, V: pick([]string{"proc", "proxy"}), Amt: anyAmt(), K: "GAS"})
 		default:
 			u := pick(gasUsers)
-			sc.Steps = append(sc.Steps, GStep{Act: "pay", S: []string{u}, U: u, V: pick(gasCtrs), Amt: anyAmt(), K: pick([]string{"FOREIGN", "DIRECT"})})
+			sc.Steps = append(sc.Steps, GStep{Act: "pay", S: []string{u}, U: u, V: pick(gasCtrs), Amt: anyAmt(), K: pick([]string{"FOREIGN", "DIRECT", "FOREIGNMINT", "DIRECTMINT"})})
 		}
 	}
 	return sc
@@ -955,7 +959,7 @@ func gasTraps() []*GScenario {
 			GStep{Act: "pay", S: u1, U: "u1", V: "alph", W: 0, K: "NEO"}, GStep{Act: "emit", S: me},
 			GStep{Act: "pay", S: u1, U: "u1", V: "alph", Amt: gasAmt(0, 999_999_999_999), K: "GAS"}, GStep{Act: "emit", S: me}, GStep{Act: "emit", S: me})
 		for _, t := range gasCtrs {
-			for _, k := range []string{"FOREIGN", "DIRECT", "NEO"} {
+			for _, k := range []string{"FOREIGN", "DIRECT", "NEO", "FOREIGNMINT", "DIRECTMINT"} {
 				sc.Steps = append(sc.Steps, GStep{Act: "pay", S: u1, U: "u1", V: t, Amt: gasAmt(0, 5), W: 2, K: k})
 			}
 		}
